@@ -157,15 +157,17 @@ class Scenario:
             if op == 'plot3d':
                 dev.plot3d(show=False)
                 return 5, fig_digest(dev.fig)
-            if op == 'pgm':
+            if op in ('pgm', 'pgm_quiet'):
                 for p in pathlib.Path('.').iterdir():
                     if p.is_dir():
                         shutil.rmtree(p)
                     elif p.suffix in ('.pgm',):
                         p.unlink()
-                dev.pgm(verbose=True)
+                # a quiet export is its own operation (key 12): what it writes and the estimate it leaves must not depend on
+                # whether a verbose export came before (the writers once stored their estimate only when printing it)
+                dev.pgm(verbose=(op == 'pgm'))
                 self.exported = True
-                return 6, h60(tree_digest('.'), round(float(dev.fabrication_time), 9))
+                return (6 if op == 'pgm' else 12), h60(tree_digest('.'), round(float(dev.fabrication_time), 9))
             if op == 'toolpath':
                 out = []
                 for t in self.col:
@@ -191,7 +193,7 @@ class Scenario:
         raise AssertionError(op)
 
 
-OPS = ['write', 'write_points', 'transform', 'plot2d', 'plot3d', 'pgm', 'toolpath', 'fab_time', 'xlsx', 'write_stroke']
+OPS = ['write', 'write_points', 'transform', 'plot2d', 'plot3d', 'pgm', 'pgm_quiet', 'toolpath', 'fab_time', 'xlsx', 'write_stroke']
 
 
 def run(rep: common.Report, tier: str, seed: int):
@@ -205,7 +207,7 @@ def run(rep: common.Report, tier: str, seed: int):
         ops = [rng.choice(OPS) for _ in range(n)]
         # make sure some operation is repeated
         ops.append(rng.choice(ops))
-        ops.append(rng.choice(['pgm', 'toolpath', 'write', 'transform', 'write_stroke']))
+        ops.append(rng.choice(['pgm', 'pgm_quiet', 'toolpath', 'write', 'transform', 'write_stroke']))
         ops.append(ops[-1])
         obs, args = [], []
         for op in ops:
